@@ -34,7 +34,7 @@ InsertSorted(s, x) == IF s = <<>> THEN <<x>>
 SortSlots(m) == IF m = <<>> THEN <<>> ELSE InsertSorted(SortSlots(Tail(m)), Head(m))
 
 IsSortedKind(kind) == kind = "map_sorted"
-Norm(kind, m) == IF IsSortedKind(kind) THEN SortSlots(m) ELSE m
+NormKind(kind, m) == IF IsSortedKind(kind) THEN SortSlots(m) ELSE m
 
 \* outcomes of putting value v under key k
 PutOutcomes(m, k, v) ==
@@ -79,7 +79,7 @@ MapApply(kind, m0, o) ==
           [] o.op = "contains_value" -> {R(m, Bool(IsValueVal(cur)))}
           [] o.op = "contains_array_of_tables" -> {R(m, Bool(IsAotVal(cur)))}
           [] o.op = "extend" -> {R(y, 0 - 1) : y \in UNION {PutOutcomes(x, o.k2, o.v) : x \in PutOutcomes(m, k, o.v)}}
-  IN {R(Norm(kind, r.m), r.ret) : r \in out}
+  IN {R(NormKind(kind, r.m), r.ret) : r \in out}
 
 \* what a caller can observe
 MapObs(m, keys) == [len |-> Len(Visible(m)), empty |-> Len(Visible(m)) = 0,
